@@ -180,6 +180,8 @@ def run(ctx):
         for leg, key in sorted(legs.items()):
             for procs, s_ in sorted(summaries.items()):
                 floor = max(1, s_.get("cases", 0) // 3)
+                # legs whose size does not grow with the number of cases have their own floor
+                floor = {"cold-exportnetwork-files": 30, "extreme-enum-indexes": 500}.get(leg, floor)
                 if s_.get(key, 0) < floor and not any_new:
                     ctx.violation("c15-leg-not-exercised-" + leg,
                                   "GOMAXPROCS=%d: the %s leg made %d comparisons for %d cases (floor %d); loads failed: %d - the clause was "
